@@ -1,26 +1,33 @@
 ---------------------------- MODULE MC_Reconnect ----------------------------
 (* Bounded instance of Reconnect.tla: all orders of user calls, attempt outcomes, session ends, mDNS records and time. *)
-EXTENDS Reconnect
-CONSTANTS MaxSteps, MaxTime
-VARIABLE k
-mvars == <<r, k>>
-MInit == RInit /\ k = 0
-Step(S) == k < MaxSteps /\ k' = k + 1 /\ r' \in S
+(* GenMode: every distinct state of the manager is printed once with the (shortest) history that reaches it.          *)
+EXTENDS Reconnect, Json
+CONSTANTS MaxSteps, MaxTime, GenMode
+VARIABLES k, hist, fin
+mvars == <<r, k, hist, fin>>
+mview == <<r, k, fin>>
+MInit == RInit /\ k = 0 /\ hist = <<>> /\ fin = FALSE
+H(tok) == hist' = IF GenMode THEN Append(hist, tok) ELSE hist
+Step(S, tok) == ~fin /\ k < MaxSteps /\ k' = k + 1 /\ r' \in S /\ H(tok) /\ UNCHANGED fin
 NextTimer(x) == x.timer
 MNext ==
-  \/ ~r.started /\ ~r.stopwait /\ ~r.live /\ Step(UserStart(r))
-  \/ r.started /\ ~r.stopwait /\ Step(UserStop(r))
-  \/ \E m \in BOOLEAN : Step(Mdns(r, m))
-  \/ Step(TimerFire(r))
-  \/ Step(TcpUp(r))
-  \/ \E a \in BOOLEAN : Step(Fail(r, a))
-  \/ Step(Succeed(r))
-  \/ Step(TaskGo(r))
-  \/ Step(StopGo(r))
-  \/ \E e \in BOOLEAN : Step(SessionEnd(r, e))
+  \/ ~r.started /\ ~r.stopwait /\ ~r.live /\ Step(UserStart(r), <<"start">>)
+  \/ r.started /\ ~r.stopwait /\ Step(UserStop(r), <<"stop">>)
+  \/ \E m \in BOOLEAN : Step(Mdns(r, m), <<"mdns", m>>)
+  \/ Step(TimerFire(r), <<"timer">>)
+  \/ Step(TcpUp(r), <<"tcpup">>)
+  \/ \E a \in BOOLEAN : Step(Fail(r, a), <<"fail", a, r.att>>)
+  \/ Step(Succeed(r), <<"succeed">>)
+  \/ Step(TaskGo(r), <<"i">>)
+  \/ Step(StopGo(r), <<"i">>)
+  \/ \E e \in BOOLEAN : Step(SessionEnd(r, e), <<"end", e>>)
   \* time passes to the retry timer, or a bit (events in between)
-  \/ r.timer # NoT /\ r.timer > r.now /\ r.timer <= MaxTime /\ AtRest(r) /\ k' = k /\ r' = [Begin(r) EXCEPT !.now = r.timer]
-  \/ AtRest(r) /\ r.now + 1000 <= MaxTime /\ (r.timer = NoT \/ r.now + 1000 < r.timer) /\ k' = k /\ r' = [Begin(r) EXCEPT !.now = r.now + 1000]
+  \/ ~fin /\ r.timer # NoT /\ r.timer > r.now /\ r.timer <= MaxTime /\ AtRest(r) /\ k' = k /\ r' = [Begin(r) EXCEPT !.now = r.timer]
+        /\ H(<<"totimer">>) /\ UNCHANGED fin
+  \/ ~fin /\ AtRest(r) /\ r.now + 1000 <= MaxTime /\ (r.timer = NoT \/ r.now + 1000 < r.timer) /\ k' = k /\ r' = [Begin(r) EXCEPT !.now = r.now + 1000]
+        /\ H(<<"wait", 1000>>) /\ UNCHANGED fin
+  \/ /\ GenMode /\ ~fin /\ Len(hist) >= 2 /\ fin' = TRUE /\ UNCHANGED <<r, k, hist>>
+     /\ PrintT(<<"SCHED", ToJson(hist)>>)
 MSpec == MInit /\ [][MNext]_mvars
 \* vacuity guards (must be reachable)
 NeverTwoFailures == r.tries < 2 \/ r.tries = AuthTries
